@@ -72,7 +72,7 @@ def parseResp (sid : Nat) (args : List String) : Option Resp := do
 
 def gauges (s : Srv) : String :=
   let held := (s.strms.map (·.prevHdr.length)).sum
-  s!"ok strms={s.strms.length} open={s.openStreams} ring={s.ring.length} held={held}"
+  s!"ok strms={s.strms.length} open={s.openStreams} ring={s.ring.length} held={held} rwin={s.recvWin}"
 
 def step (st : State) (args : List String) : State × String :=
   match args with
